@@ -329,6 +329,7 @@ enum {
     OP_UNREG3, OP_UNREG4,
     OP_FILL,  /* --env 1: register / unregister a throw-away request until the out-of-band queue is full */
     OP_DRAIN, /* --env 1: dispatch until the loop is idle */
+    OP_P1_T1, /* P1's output replaced by the terminal T1 directly (one non-NULL output replaced by another, P2 bypassed) */
     NOPS
 };
 
@@ -357,7 +358,7 @@ static void opstr(int op, char *b, size_t n)
                                "P2.set_output(NULL)", "T0.provide(first lodged)", "T1.provide(first lodged)", "dispatch(pump 0)", "dispatch(pump 1)",
                                "dispatch(pump 2)", "release(P2)", "release(P1)", "P1.set_flow_def", "P1.set_flow_def(other kind)",
                                "register(flow_format)", "register(ubuf_mgr)", "unregister(flow_format)", "unregister(ubuf_mgr)",
-                               "fill(out-of-band queue)", "drain(dispatch until idle)"};
+                               "fill(out-of-band queue)", "drain(dispatch until idle)", "P1.set_output(T1)"};
     snprintf(b, n, "%s", op >= 0 && op < NOPS ? nm[op] : "?");
 }
 
@@ -366,7 +367,7 @@ static struct upipe *head_pipe(struct st *st) { return g_head ? st->qsink : st->
 /* the pipe the P1-side connects to (P2, or the queue sink) */
 static struct upipe *p1_next(struct st *st) { return g_topo == 3 ? st->qsink : st->p2; }
 /* does what the head registers reach the pipe after P1 */
-static bool head_routed(struct st *st) { return g_head ? true : st->p1_inner && st->p1_out == 1; }
+static bool head_routed(struct st *st) { return g_head ? true : st->p1_inner && st->p1_out != 0; }
 /* topology 6: P1 answers these itself and forwards nothing */
 static bool answered_by_p1(int r) { return g_topo == 6 && (req_types[r] == UREQUEST_FLOW_FORMAT || req_types[r] == UREQUEST_UBUF_MGR); }
 
@@ -469,6 +470,8 @@ static bool enabled_cb(void *vst, int op)
     if (g_env && (op == OP_P1_NEXT || op == OP_P1_NULL || op == OP_P2_T0 || op == OP_P2_T1 || op == OP_P2_NULL || op == OP_REL_P2 ||
                   op == OP_REL_P1))
         return false; /* (the plumbing is fixed in this mode) */
+    if (op == OP_P1_T1)
+        return g_topo != 3 && !g_env;
     if (op == OP_P1_NEXT)
         return !st->p2_released || g_topo == 3;
     if (op == OP_P2_T0 || op == OP_P2_T1 || op == OP_P2_NULL || op == OP_REL_P2)
@@ -538,6 +541,8 @@ static bool loop_idle(struct st *st)
 /* the provider that what travels from the pipe after P1 reaches, -1 none (providers that decline hold nothing) */
 static int reached_provider(struct st *st)
 {
+    if (st->p1_out == 2) /* P1 -> T1 directly */
+        return g_tprov != 2 ? 1 : -1;
     return st->p2_out != 0 && g_tprov != 2 ? st->p2_out - 1 : -1;
 }
 
@@ -580,7 +585,7 @@ static void check_p1(struct st *st, const char *when)
 {
     if (g_topo != 6)
         return;
-    int want = st->p1_out == 1 ? reached_provider(st) : -1;
+    int want = st->p1_out != 0 ? reached_provider(st) : -1;
     for (int k = 0; k < 2; k++) {
         for (int w = 0; w < 2; w++) {
             int n = lodged(st, k, w ? UREQUEST_UBUF_MGR : UREQUEST_FLOW_FORMAT, w ? ORG_OWN_UBM : ORG_OWN_FF);
@@ -834,6 +839,9 @@ static int apply(void *vst, int op, bool check)
     } else if (op == OP_P1_NULL) {
         ubase_assert(upipe_set_output(st->p1, NULL));
         st->p1_out = 0;
+    } else if (op == OP_P1_T1) {
+        ubase_assert(upipe_set_output(st->p1, &fx->sinks[1].upipe));
+        st->p1_out = 2;
     } else if (op == OP_P2_T0 || op == OP_P2_T1) {
         ubase_assert(upipe_set_output(st->p2, &fx->sinks[op - OP_P2_T0].upipe));
         st->p2_out = op - OP_P2_T0 + 1;
